@@ -39,6 +39,14 @@ Theorem C14_time_match : forall (dt : Q) (k j : Z), (0 < dt)%Q ->
 Proof. exact time_match_exact. Qed.
 Print Assumptions C14_time_match.
 
+(* inside one scheduled time: exactly the listed jumps whose time matches are applied, each once, in listed order *)
+Theorem C14_applied_exactly_the_matching : forall ms p, In p (applied_at ms 0) <-> nth_error ms p = Some true.
+Proof. exact applied_at_complete. Qed.
+Print Assumptions C14_applied_exactly_the_matching.
+Theorem C14_applied_in_listed_order : forall ms pos, Sorted.StronglySorted lt (applied_at ms pos).
+Proof. exact applied_at_sorted. Qed.
+Print Assumptions C14_applied_in_listed_order.
+
 Example C14_example : let s := from_list [2; 4] in
   sample2 s 4 = [Dh; J; U; D1; J; U; D1; Sj 2; U; D1; J; U; Dh; Sj 4] /\ count_S 2 (sample2 s 1) = 0 /\ u_before 4 (sample2 s 4) = Some 4.
 Proof. vm_compute. repeat split. Qed.
